@@ -245,9 +245,11 @@ func init() {
 			job(sc(sim.RelCfg("c05-rel-k4-batch-retarget", 0, 4, 0, 8, fBld|fRet|fBSet|fMove, oBasic).P("C05")), pick(tier, 6, 8), 2),
 			job(sc(sim.RichOrphanCfg("c05-rich-orphan", 3, false, fMove|fRet|fRelX, oBasic).P("C05")), pick(tier, 4, 5), 1),
 			job(sc(sim.RelCfg("c05-rel-k3-registered-relation-filters", 0, 3, 0, 8, fBld|fRet|fReg|fBSet, oBasic).P("C05")), pick(tier, 5, 7), 2),
+			// what counts as a relation component after a rejected registration (decided in the lock scenario)
+			job(scAny(&sim.LockCfg{ID: "c05-lock-q1-rejected-registration", Q: 1}), pick(tier, 3, 4), 0.5),
 		}
 	}, func(f *wx.Failure, last string) bool {
-		if f.Prop == "" || f.Prop == "C05" {
+		if f.Prop == "" || f.Prop == "C05" || strings.HasPrefix(f.Sig, "register-locked:") {
 			return true
 		}
 		// a corrupted entity index or table right after an operation that sets or moves relation targets
@@ -278,6 +280,14 @@ func init() {
 		}
 		return js
 	}, func(f *wx.Failure, _ string) bool { return true })
+
+	// C06 names storage that is retired and re-used: what happens to retired tables when component types are registered in the
+	// meantime is enumerated by the registration/table-lifecycle schedules of C16
+	ExtraParts["C06"] = func(rp *runner.Report) {
+		runs := c16Usability(rp)
+		rp.Trans += int(runs)
+		fmt.Printf("  registration x table lifecycle: %d schedules (create / retire / re-use relation tables around type registrations)\n", runs)
+	}
 
 	// ------------------------------------------------------------------ C07 filter caching
 	wxCheck("C07", 90, 1800, func(tier string) []runner.Job {
